@@ -16,6 +16,7 @@ import (
 	"io"
 	"log"
 	"net"
+	"runtime"
 	"sort"
 	"strconv"
 	"strings"
@@ -304,6 +305,11 @@ func runE2E(op string, rep *hx.Report) (lines, impl []string, skipped string) {
 			}
 		}
 		return ""
+	}
+	if get("procs") == "1" {
+		// one processor: goroutines started by a loop run only when the loop blocks
+		old := runtime.GOMAXPROCS(1)
+		defer runtime.GOMAXPROCS(old)
 	}
 	mode := get("mode")
 	seed, _ := strconv.ParseUint(get("seed"), 10, 64)
@@ -614,6 +620,9 @@ func main() {
 				n = 12 + r.Intn(30)
 			}
 			ops = append(ops, fmt.Sprintf("e2e mode=%s seed=%d conns=%d", []string{"legacy", "siding", "siding-addr"}[i%3], r.U64()%100000, n))
+		}
+		for _, mode := range []string{"legacy", "siding-addr"} {
+			ops = append(ops, fmt.Sprintf("e2e mode=%s seed=%d conns=%d focus=1 procs=1", mode, r.U64()%100000, 24))
 		}
 		ops = append(ops, "long calls=70000")
 		for _, mode := range []string{"legacy", "siding", "siding-addr"} {
